@@ -1,4 +1,7 @@
 //! Structures that implement different methods on [`Parser`] trait
+#[cfg(bpaf_verif)]
+#[allow(unused_imports)]
+use crate::verif::std;
 use crate::{
     args::State,
     buffer::MetaInfo,
